@@ -32,6 +32,8 @@ type simViolation struct {
 	Desc   string
 	Clock  int
 	Full   []simEvent `json:",omitempty"` // complete event history when it extends the explored one (continuations)
+	Final  string     `json:",omitempty"` // found by this final check (progress / shutdown), started from Prefix
+	Prefix []simEvent `json:",omitempty"` // the explored history the final check started from
 }
 
 type nodeSnap struct {
